@@ -337,3 +337,29 @@ _deductive('C12',
            [L['L1'], L['L5'], L['L6'], L['L7'], L['pow2'], L['term'],
             'BufrSection abstracted to its ordered parameter list; section layouts = definition files (ground facts)'],
            ['skip-and-continue, unknown-descriptor refusal and the prefix clause are checked by fault enumeration only'])
+
+
+# ---- frame obligations decided on the AST (pyvc/frame.py): functions that must not write through their arguments ----------------------
+def _frame(funcs):
+    def run(db):
+        from pyvc import frame
+        return [frame.check(db, q, mm) for q, mm in funcs]
+    return run
+
+
+CONFIG_FRAME = [('pybufrkit.bufr.SectionConfigurer.info_configuration', ()), ('pybufrkit.bufr.SectionConfigurer.ignore_value_expectation', ()),
+                ('pybufrkit.bufr.SectionConfigurer.get_configuration', ()), ('pybufrkit.bufr.SectionConfigurer.configure_section', ('bufr_message',))]
+TABLE_FRAME = [('pybufrkit.tables.TableB.lookup', ()), ('pybufrkit.tables.TableD.lookup', ()), ('pybufrkit.tables.BufrTableGroup.lookup', ()),
+               ('pybufrkit.tables.get_tables_sn', ()), ('pybufrkit.tables.normalize_tables_sn', ())]
+QUERY_FRAME = [('pybufrkit.mdquery.MetadataQuerent.query', ()), ('pybufrkit.mdquery.MetadataExprParser.parse', ())]
+PROPS['C13']['syntactic'] = [_frame(CONFIG_FRAME + TABLE_FRAME + QUERY_FRAME + [('pybufrkit.decoder.Decoder.process', ()),
+                                                                              ('pybufrkit.dataquery.DataQuerent.filter_for_entities', ())])]
+PROPS['C12']['syntactic'] = [_frame(CONFIG_FRAME + [('pybufrkit.decoder.Decoder.process', ())])]
+PROPS['C17']['syntactic'] = [_frame(QUERY_FRAME + CONFIG_FRAME[:1])]
+PROPS['C11']['syntactic'] = [_frame(QUERY_FRAME)]
+PROPS['C14']['syntactic'] = [_frame(TABLE_FRAME)]
+FRAME_NOTE = ('frame obligations decided on the AST (pyvc/frame.py): the listed functions make every store through an object allocated in the call '
+              '(deepcopy: whole graph private; dict() / list() / literal / constructor: the container only); a failing frame obligation is UNDECIDED '
+              'unless the bounded layer supplies a failing input')
+for _p in ('C13', 'C12', 'C17', 'C11', 'C14'):
+    PROPS[_p]['trusted_base'] = list(PROPS[_p].get('trusted_base', [])) + [FRAME_NOTE]
